@@ -25,6 +25,14 @@ def plan(plan, tier, seed):
         plan.anchor_errors.append((n5, str(e)))
     plan.dropped.append(vC18.merge_rows_fn.__doc__.strip() + " -- " + vC18._row_rewrite.__doc__.strip())
     plan.assumptions.append("merge_rows: a table's data (IndexMap) is the vector of its column ids; reading a cell is the uninterpreted cellv(table, column, row); rhs-only columns carry other ids than the lhs columns (precondition: they have other names); std HashMap / HashSet per vstd")
+    n6 = "C18.verus.build_joined_table.output_columns_and_optional_kinds"
+    plan.ob(n6, "verus", "proved", functions=["TableJoinFxn::build_joined_table (from `let mut output_cols` to the semi/anti override)"],
+            what="for every pair of tables, common-column sets and join mode: the output columns are every lhs column followed by every rhs column that is not a common one, with their names; an lhs-only column becomes optional exactly in right / full outer joins, an rhs-only column exactly in left / full outer joins, common columns never")
+    try:
+        plan.verus.append(VerusUnit("c18_output_cols", vC18.cols_unit(text), {"output_columns": n6}, ["canary_cols"]))
+    except AnchorLost as e:
+        plan.anchor_errors.append((n6, str(e)))
+    plan.dropped.append(vC18.output_cols_fn.__doc__.strip())
     n3 = "C18.verus.rows_match.all_common_columns"
     plan.ob(n3, "verus", "proved", functions=["rows_match"],
             what="two rows match iff they hold equal cells in EVERY pair of commonly named columns (for any number of common columns, including none)")
